@@ -18,6 +18,8 @@ import Aqv.Lemmas.EvmGas
 import Aqv.Lemmas.EvmBitmap
 import Aqv.Model.EvmSelect
 import Aqv.Lemmas.EvmRun
+import Aqv.Lemmas.Translated.Vm
+import Aqv.Lemmas.Translated.Params
 namespace Aqv.Props.C08
 open Aqv Aqv.Big Aqv.Evm Aqv.Gen.VmTable
 
@@ -332,5 +334,75 @@ theorem mainnet_schedule (n : Nat) :
     · have : ¬ 36050 ≤ n := by omega
       simp [h1, this] <;> try omega
   · by_cases h1 : n ≥ 3600 <;> simp [h1] <;> try omega
+
+/-! ### tie by translation (T-gen `translated`, DESIGN 2.2 mini-translator)
+
+The functions below are translated from the go/ssa form of the tree under test on every run (`Aqv.Gen.Translated`); the
+theorems state that the translated code IS the model function the theorems above are stated on (proofs in
+`Aqv.Lemmas.Translated.Vm` / `.Params`).  A change of the Go source that changes the meaning of one of them breaks its theorem. -/
+
+/-- core/vm.toWordSize: the code is the model. -/
+theorem toWordSize_code_is_model : Aqv.Gen.Translated.toWordSize = toWordSize :=
+  Aqv.Lemmas.Translated.toWordSize_translated_eq
+
+example : Aqv.Gen.Translated.toWordSize 33 = 2 ∧ Aqv.Gen.Translated.toWordSize 0xffffffffffffffff = 0x800000000000000 := by decide
+
+/-- common/math.SafeAdd / SafeMul / SafeSub: the code is the model (`SafeMul` never panics: its division is guarded). -/
+theorem safe_arith_code_is_model :
+    Aqv.Gen.Translated.SafeAdd = safeAdd ∧ (∀ x y, Aqv.Gen.Translated.SafeMul x y = some (safeMul x y)) ∧
+    (∀ x y, Aqv.Gen.Translated.SafeSub x y = (x - y, decide (x < y))) :=
+  ⟨Aqv.Lemmas.Translated.SafeAdd_translated_eq, Aqv.Lemmas.Translated.SafeMul_translated_eq,
+   Aqv.Lemmas.Translated.SafeSub_translated_eq⟩
+
+/-- core/vm.memoryGasCost (with `(*Memory).Len`; `mem.lastGasCost` is threaded as an extra argument/result): reading
+    `(gas, err, lastGasCost')` as the model's `Option (gas × Mem)` gives the model function. -/
+theorem memoryGasCost_code_is_model (storeLen : Int64) (lastGasCost newMemSize : UInt64) :
+    Aqv.Lemmas.Translated.memRes (Aqv.Lemmas.Translated.memLen storeLen)
+        (Aqv.Gen.Translated.memoryGasCost storeLen lastGasCost newMemSize)
+      = memoryGasCost ⟨Aqv.Lemmas.Translated.memLen storeLen, lastGasCost⟩ newMemSize :=
+  Aqv.Lemmas.Translated.memoryGasCost_translated_eq storeLen lastGasCost newMemSize
+
+example : Aqv.Gen.Translated.memoryGasCost 0 0 64 = (6, none, 6) := by decide
+
+/-- the gas functions built on memoryGasCost: gasMLoad / gasMStore / gasMStore8 (+ GasFastestStep), gasCreate (+ CreateGas),
+    gasReturn / gasRevert. -/
+theorem memory_gas_functions_code_is_model (storeLen : Int64) (lgc n : UInt64) :
+    let mem : Mem := ⟨Aqv.Lemmas.Translated.memLen storeLen, lgc⟩
+    let rd := fun r => (Aqv.Lemmas.Translated.memRes (Aqv.Lemmas.Translated.memLen storeLen) r).map Prod.fst
+    rd (Aqv.Gen.Translated.gasMLoad storeLen lgc n) = gasMemVeryLow mem n ∧
+    rd (Aqv.Gen.Translated.gasMStore storeLen lgc n) = gasMemVeryLow mem n ∧
+    rd (Aqv.Gen.Translated.gasMStore8 storeLen lgc n) = gasMemVeryLow mem n ∧
+    rd (Aqv.Gen.Translated.gasCreate storeLen lgc n) = gasCreate mem n ∧
+    rd (Aqv.Gen.Translated.gasReturn storeLen lgc n) = gasReturn mem n ∧
+    rd (Aqv.Gen.Translated.gasRevert storeLen lgc n) = gasReturn mem n :=
+  ⟨Aqv.Lemmas.Translated.gasMLoad_translated_eq _ _ _, Aqv.Lemmas.Translated.gasMStore_translated_eq _ _ _,
+   Aqv.Lemmas.Translated.gasMStore8_translated_eq _ _ _, Aqv.Lemmas.Translated.gasCreate_translated_eq _ _ _,
+   Aqv.Lemmas.Translated.gasReturn_translated_eq _ _ _, Aqv.Lemmas.Translated.gasRevert_translated_eq _ _ _⟩
+
+/-- core/vm.callGas, bigUint64 (for every big integer whose bit length fits Go's `int`, i.e. every value that exists),
+    calcMemSize and common/math.S256 (at the initial values of the package-level variables they read). -/
+theorem callGas_code_is_model (createBySuicide availableGas base : UInt64) (callCost : Int)
+    (h : Aqv.Lemmas.Translated.Fits callCost) :
+    Aqv.Lemmas.Translated.errRes (Aqv.Gen.Translated.callGas createBySuicide availableGas base callCost)
+      = callGas createBySuicide availableGas base callCost ∧
+    Aqv.Gen.Translated.bigUint64 callCost = bigUint64 callCost ∧
+    (∀ off l, Aqv.Gen.Translated.calcMemSize 0 off l = calcMemSize off l) ∧
+    (∀ x, Aqv.Gen.Translated.S256 tt255 tt256 x = s256 x) :=
+  ⟨Aqv.Lemmas.Translated.callGas_translated_eq _ _ _ _ h, Aqv.Lemmas.Translated.bigUint64_translated_eq _ h,
+   Aqv.Lemmas.Translated.calcMemSize_translated_eq, Aqv.Lemmas.Translated.S256_translated_eq⟩
+
+example : Aqv.Lemmas.Translated.Fits (2 ^ 256 - 1) ∧
+    Aqv.Gen.Translated.callGas 1 6400 0 (2 ^ 256 - 1) = (6300, none) := by decide
+
+/-- params.isForked and the block-number switches built on it (IsHomestead / IsByzantium / IsConstantinople): never panic on
+    a non-nil head and compute the model's `isForked`. -/
+theorem isForked_code_is_model (s : Option Nat) (head : Nat) :
+    Aqv.Gen.Translated.isForked (s.map Nat.cast) (some (head : Int)) = some (isForked s head) ∧
+    Aqv.Gen.Translated.ChainConfig_IsHomestead (s.map Nat.cast) (some (head : Int)) = some (isForked s head) ∧
+    Aqv.Gen.Translated.ChainConfig_IsByzantium (s.map Nat.cast) (some (head : Int)) = some (isForked s head) ∧
+    Aqv.Gen.Translated.ChainConfig_IsConstantinople (s.map Nat.cast) (some (head : Int)) = some (isForked s head) :=
+  ⟨Aqv.Lemmas.Translated.isForked_translated_eq s head, Aqv.Lemmas.Translated.ChainConfig_IsHomestead_translated_eq s head,
+   Aqv.Lemmas.Translated.ChainConfig_IsByzantium_translated_eq s head,
+   Aqv.Lemmas.Translated.ChainConfig_IsConstantinople_translated_eq s head⟩
 
 end Aqv.Props.C08
